@@ -343,6 +343,13 @@ def run(rep, repo, tier):
             for crit in ([], [lpfacts.crit_config('MAXSIZE')], [lpfacts.crit_config('LOADMAXBAL')]):
                 r = lpfacts.get_run(repo, pc, stab, crit)
                 lpfacts.closed_classification(rep, r, 'C02.R3', '[pc=%s stab=%s %s]' % (pc, stab, ','.join(c[0] for c in crit) or 'no criterion'))
+                if pc and not crit:
+                    # the closure list is subscripted by project: one variable per project, or the constraint loop runs off its end
+                    for a_, (l_, sort_) in sorted(r.canon.arr_letter.items()):
+                        if l_ == 'c':
+                            rep.check(sort_ == 'P', 'C02.R7', repo.method('Model', 'pulp_setup').where, 'one closure variable is declared per project [stab=%s]' % stab,
+                                      got='one per %s' % {'L': 'lecturer', 'S': 'student', None: 'element of an unrecognised range'}.get(sort_, sort_), want='range(num_projects)',
+                                      construct='closure variables per %s' % sort_)
     # R5 load-balancing agreement on ordered pairs
     others = ['MAXSIZE', 'GENEROUS', 'MINCOST']
     pairs = [(a, b) for a in spec.LOAD_BALANCING for b in others] + [(b, a) for a in spec.LOAD_BALANCING for b in others]
